@@ -379,6 +379,9 @@ func (m *sim) predict(a act) actRes {
 func (m *sim) apply(s *scriptScn, idx int, a act, r actRes, results []actRes) {
 	i := a.Side
 	sd := m.side[i]
+	if r.Kind == "skipped" {
+		return // not executed: it depended on an Open that hung or failed (reported there)
+	}
 	switch a.Op {
 	case "write":
 		m.doWrite(i, a.ID, a.Seq, a.Size, r)
@@ -445,9 +448,17 @@ func (m *sim) apply(s *scriptScn, idx int, a act, r actRes, results []actRes) {
 	case "open":
 		m.ev(i, fmt.Sprintf("(EvOpen %s)", coqfmt.N(uint64(a.ID))), obsOf(r, true))
 		m.note(i, "Open", r)
-		if a.ID != 0 && r.Kind == "ok" && !sd.cclosed[a.ID] {
+		if a.ID != 0 && r.Kind == "ok" {
+			if sd.cclosed[a.ID] {
+				// the id's connection was closed by conn.Close: Open makes a fresh object with an empty queue
+				sd.cclosed[a.ID] = false
+				sd.q[a.ID] = 0
+			}
 			sd.mapped[a.ID] = true
 		}
+	case "staleclose":
+		m.ev(i, fmt.Sprintf("(EvStaleClose %s)", coqfmt.N(uint64(a.ID))), obsOf(r, true))
+		m.note(i, "Close of a stale handle", r)
 	case "openrace":
 		// whichever comes first, Close or an Open: the connection ends up closed and every call on it fails;
 		// the model is run on "Close first", the order in which only Open itself can close the connection
